@@ -1,7 +1,8 @@
-\* enumeration of the table and of every single-field deviation (quick tier;
+\* enumeration of the table, of every single-field deviation and of the
+\* QuickCore products (quick tier;
 \* the pairwise rows are computed from the printed table by checks/rpc.py)
 SPECIFICATION Spec
 CONSTANTS
-  Mode = "oneoff"
+  Mode = "quick"
 INVARIANT TypeOK
 CHECK_DEADLOCK FALSE
